@@ -21,6 +21,7 @@ type region struct {
 	used      int
 	frozen    bool
 	revisions int
+	large     int
 	nOrig     int
 	revOf     []int // indices of (original, revision, probe) when a revision exists
 	focus     []int // when set, geometry arguments are drawn from these operands only
@@ -100,6 +101,7 @@ type pool struct {
 	pubT      []uint64
 	frozen    bool
 	revisions int
+	large     int
 	nOrig     int
 	revOf     []int // indices of (original, revision, probe) when a revision exists
 	focus     []int // when set, geometry arguments are drawn from these operands only
@@ -139,7 +141,7 @@ func buildPool(m *vs.Stream, freeze bool) (*pool, error) {
 	for attempt := 0; ; attempt++ {
 		p.geoms = p.geoms[:0]
 		for i := 0; i < ng; i++ {
-			cfg := gen.Cfg{MaxPts: 12, MaxParts: 3, Depth: 1 + m.Intn(2, "pool/depth"), CTypes: zm, Empties: m.Intn(4, "pool/empties") == 3}
+			cfg := gen.Cfg{MaxPts: 12, MaxParts: 3, Depth: 1 + m.Intn(2, "pool/depth"), CTypes: zm, Empties: m.Intn(4, "pool/empties") == 3, SpareCap: true}
 			if general {
 				cfg.Jitter = 0.3
 			}
@@ -159,6 +161,29 @@ func buildPool(m *vs.Stream, freeze bool) (*pool, error) {
 		if attempt >= 2 {
 			general = false // give up: fall back to the lattice class
 		}
+	}
+	// occasionally one large operand: a grid of 36-49 disjoint unit squares
+	// (algorithms that switch strategy at a size threshold, ties between equal
+	// members) or a MultiPoint of 40 points
+	if !general && m.Intn(12, "pool/large") == 11 {
+		if m.Intn(3, "pool/largekind") == 0 {
+			pts := make([]geom.Point, 40)
+			for i := range pts {
+				pts[i] = geom.XY{X: p.lat.X(i % 8), Y: p.lat.Y(i / 8)}.AsPoint()
+			}
+			p.geoms = append(p.geoms, geom.NewMultiPoint(pts).AsGeometry())
+		} else {
+			side := 6 + m.Intn(2, "pool/gridside")
+			var polys []geom.Polygon
+			for i := 0; i < side*side; i++ {
+				x, y := float64(2*(i%side))*p.lat.Unit+p.lat.OffX, float64(2*(i/side))*p.lat.Unit+p.lat.OffY
+				fs := p.reg.alloc(10)
+				copy(fs, []float64{x, y, x + p.lat.Unit, y, x + p.lat.Unit, y + p.lat.Unit, x, y + p.lat.Unit, x, y})
+				polys = append(polys, geom.NewPolygon([]geom.LineString{geom.NewLineString(geom.NewSequence(fs, geom.DimXY))}))
+			}
+			p.geoms = append(p.geoms, geom.NewMultiPolygon(polys).AsGeometry())
+		}
+		p.large++
 	}
 	// a "revision" of one operand: same vertex count, same first and last
 	// segments, one interior vertex moved (two versions of a track or parcel)
